@@ -71,19 +71,20 @@ fn check_same_all(uf: &Uf, m: &MPart<D>) {
 }
 
 // C04: after every step of a symbolic history of K unions, same() == closure, for every probe pair.
-harness!(c04_uf_history2, 12, {
+//@ heavy=1
+harness!(c04_uf_history2, 6, {
     let (uf, m) = uf_sym::<2>();
     check_same_all(&uf, &m);
     cov!(!m.is_bot(), "non-trivial partition");
 });
 //@ tier=thorough heavy=1
-harness!(c04_uf_history3, 14, {
+harness!(c04_uf_history3, 7, {
     let (uf, m) = uf_sym::<3>();
     check_same_all(&uf, &m);
     cov!(m.same(0, 1) && m.same(1, 2) && m.same(2, 3), "all four items joined");
 });
 //@ tier=thorough heavy=1
-harness!(c04_uf_history4, 16, {
+harness!(c04_uf_history4, 7, {
     let (uf, m) = uf_sym::<4>();
     check_same_all(&uf, &m);
     cov!(m.same(0, 3) && !m.same(0, 1), "0~3 but not 0~1");
@@ -91,7 +92,7 @@ harness!(c04_uf_history4, 16, {
 
 // C04: merge of a second union-find = closure of both edge sets; flag exact (C02).
 //@ prop=C02,C04 heavy=1 tier=thorough
-harness!(c04_uf_merge, 14, {
+harness!(c04_uf_merge, 7, {
     let (mut x, mx) = uf_sym::<2>();
     let (y, my) = uf_sym::<1>();
     let ch = x.merge(y);
@@ -105,7 +106,7 @@ harness!(c04_uf_merge, 14, {
     cov!(!ch, "unchanged");
 });
 //@ prop=C02,C04 heavy=1 tier=thorough
-harness!(c04_uf_merge_singleton, 14, {
+harness!(c04_uf_merge_singleton, 7, {
     let (mut x, mx) = uf_sym::<2>();
     let a = below(D as u8);
     let b = below(D as u8);
@@ -119,8 +120,8 @@ harness!(c04_uf_merge_singleton, 14, {
     cov!(!ch, "unchanged");
 });
 
-//@ prop=C02,C04
-harness!(c04_uf_merge_small, 12, {
+//@ prop=C02,C04 heavy=1
+harness!(c04_uf_merge_small, 6, {
     let (mut x, mx) = uf_sym::<1>();
     let a = below(D as u8);
     let b = below(D as u8);
@@ -137,15 +138,16 @@ harness!(c04_uf_merge_small, 12, {
 });
 
 // C01/C02/C03 for union-find values reachable through the API (2 symbolic unions each)
-harness!(c01i_uf, 14, { laws::c01i::<Uf>(0); });
 //@ heavy=1 tier=thorough
-harness!(c01c_uf, 14, { laws::c01c::<Uf>(3); });
+harness!(c01i_uf, 6, { laws::c01i::<Uf>(0); });
+//@ heavy=1 tier=thorough
+harness!(c01c_uf, 7, { laws::c01c::<Uf>(3); });
 //@ tier=thorough heavy=1
-harness!(c01a_uf, 14, { laws::c01a::<Uf>(3); });
+harness!(c01a_uf, 7, { laws::c01a::<Uf>(3); });
 //@ heavy=1 tier=thorough
-harness!(c02_uf, 14, { laws::c02::<Uf>(3); });
+harness!(c02_uf, 7, { laws::c02::<Uf>(3); });
 //@ heavy=1 tier=thorough
-harness!(c03m_uf, 14, {
+harness!(c03m_uf, 7, {
     let x = Uf::sym();
     let y = Uf::sym();
     let (mx, my) = (x.model(), y.model());
